@@ -46,17 +46,17 @@ type c17Manifest struct {
 }
 
 type c17Emb struct {
-	Kind  string      `json:"kind"`
-	Extra W           `json:"extra"`
-	Text  []c17Item   `json:"text"` // other string items (props mode: the properties themselves)
-	Bin   []c17Bin    `json:"bin"`
-	Mode  string      `json:"mode"` // yaml | json | props
-	Item  string      `json:"item"`
-	Doc   W           `json:"doc"` // initial embedded document; nil: item absent (yaml/json)
-	Via   string      `json:"via"` // open | builder | create
-	Edits []domEdit   `json:"edits"`
-	More  [][]domEdit `json:"more,omitempty"` // later rounds (edits, Save, reopen-compare) through the SAME Document handle
-	By    *c17Party   `json:"by,omitempty"`   // another manifest alive during the whole history, written + reloaded after every Save
+	Kind  string         `json:"kind"`
+	Extra W              `json:"extra"`
+	Text  []c17Item      `json:"text"` // other string items (props mode: the properties themselves)
+	Bin   []c17Bin       `json:"bin"`
+	Mode  string         `json:"mode"` // yaml | json | props
+	Item  string         `json:"item"`
+	Doc   W              `json:"doc"` // initial embedded document; nil: item absent (yaml/json)
+	Via   string         `json:"via"` // open | builder | create
+	Edits []c17DocEdit   `json:"edits"`
+	More  [][]c17DocEdit `json:"more,omitempty"` // later rounds (edits, Save, reopen-compare) through the SAME Document handle
+	By    *c17Party      `json:"by,omitempty"`   // another manifest alive during the whole history, written + reloaded after every Save
 }
 
 // c17Party: one of several manifests alive at the same time.
@@ -97,7 +97,7 @@ type c17B64 struct {
 
 func init() {
 	register(&Prop{ID: "C17", Run: c17Run,
-		Rule: "manifest: Secret/ConfigMap with generated metadata/extra fields (incl. the other kind's section names), 0-5 text items (strings: multi-line, unicode, numeric-looking, YAML-special; and non-string scalars) and 0-4 binary items (0-40 arbitrary bytes, incl. empty), serialised with yaml.v3, loaded through ManifestFromBytes/Reader/File, written, reloaded, then 0-8 Update/Remove edits on both facades, written and reloaded again. embedded: a YAML/JSON document embedded in an item (or absent), or properties spread over the string items, opened through k8s.YamlDoc/JsonDoc/Properties or NewBuilder()...Open()/Create() on a temp file, then 1-4 rounds of (0-6 AddValueAt/RemoveAt edits, Save through the SAME Document handle, reopen and compare), in a third of the cases with a second manifest of either kind alive that is written and reloaded after every Save. savefault: the embedded histories again, with at least one round whose Save fails in the embedded-document encoder (a +Inf/-Inf/NaN float leaf put into a JsonDoc document; a user-supplied encoder given to NewBuilder().Encoder(...) that returns an error before or after doing the standard encoder's work), attempted 1-3 times: after every failed Save the file is read back and must still be the previous manifest (loads, same item maps, same fields outside the data sections, embedded document reopens as last saved); the cause is then repaired and the same handle saves, with the usual clauses. interleave: 2-3 manifests of either kind alive at once, a random schedule of load / Update / Remove / write(+reload) steps over them, every write compared with that manifest's own expected items, sections and non-data fields, every step followed by a look at the items of all alive manifests. malformed: YAML assembled from pools of bad kinds / sections / values. b64: random bytes and mutated encodings against encoding/base64. A manifest case is non-trivial when it has at least one item; an embedded case when it has at least one edit; a savefault case when at least one Save failed; an interleave case when two manifests with at least one item between them are alive at a write; distinct = distinct canonical case JSON.",
+		Rule: "manifest: Secret/ConfigMap with generated metadata/extra fields (incl. the other kind's section names), 0-5 text items (strings: multi-line, unicode, numeric-looking, YAML-special; and non-string scalars) and 0-4 binary items (0-40 arbitrary bytes, incl. empty), serialised with yaml.v3, loaded through ManifestFromBytes/Reader/File, written, reloaded, then 0-8 Update/Remove edits on both facades, written and reloaded again. embedded: a YAML/JSON document embedded in an item (or absent), or properties spread over the string items, opened through k8s.YamlDoc/JsonDoc/Properties or NewBuilder()...Open()/Create() on a temp file, then 1-4 rounds of (0-6 edits, Save through the SAME Document handle, reopen and compare), in a third of the cases with a second manifest of either kind alive that is written and reloaded after every Save. Edits: AddValueAt / RemoveAt on the root builder, and (4 in 9, never by the same route twice in a row) calls through NESTED HANDLES the history holds - AddValue / Remove / AddContainer+AddValue / AddList+Append / AddValue of a leaf object the container already holds (one instance at two positions) on a nested container, Append / Set / MustSet(in range) / Clear on a nested list, the handle obtained by Lookup, by a chain of Child calls, or retained since the document was opened / an earlier round / returned by AddContainer or AddList (used only while Lookup still finds that very node there). Before and after every edit and around every Save the document is read through every read API (walk of Children/Items/Value, Flatten twice, Lookup of every flattened and composite path, Search for every leaf value, AsMap, Serialize as YAML and JSON, Clone, Equals, a sealed view taken at the start, every held handle's own walk / Flatten / AsMap / Items / Size / AsSlice): all must agree with the walk, with a freshly built document of the same content, with a plain-tree edit of the previous content (nested edits), and the maps returned by an earlier Flatten / AsMap must not change; what a properties Save must persist is the flattening of the WALKED document. savefault: the embedded histories again, with at least one round whose Save fails in the embedded-document encoder (a +Inf/-Inf/NaN float leaf put into a JsonDoc document; a user-supplied encoder given to NewBuilder().Encoder(...) that returns an error before or after doing the standard encoder's work), attempted 1-3 times: after every failed Save the file is read back and must still be the previous manifest (loads, same item maps, same fields outside the data sections, embedded document reopens as last saved); the cause is then repaired and the same handle saves, with the usual clauses. interleave: 2-3 manifests of either kind alive at once, a random schedule of load / Update / Remove / write(+reload) steps over them, every write compared with that manifest's own expected items, sections and non-data fields, every step followed by a look at the items of all alive manifests. entry (direct predicates only): one manifest body of an exact size - natural, or just under / at / just over / well over 512 B, 4 KiB, 64 KiB, 1 MiB, the bulk being one long text item, many text items, one long binary item or a long field outside the data sections, optionally multi-byte UTF-8 with a character across the threshold offset - loaded through ManifestFromBytes, ManifestFromFile and ManifestFromReader (reader handing the bytes out whole / in chunks of 1 B ... 1 MiB / one by one / last chunk together with io.EOF, preceded by 0-2 readers failing after 0 ... n-1 bytes that must yield an error and no manifest): the three show the generated items and the same items, WriteTo (on the reader-loaded one preceded by 0-2 writers failing part-way, which must be reported) gives byte-identical bodies that reload through the reader entry point with the same items and the same non-data fields, also after 0-3 facade edits. malformed: YAML assembled from pools of bad kinds / sections / values. b64: random bytes and mutated encodings against encoding/base64. A manifest case is non-trivial when it has at least one item; an embedded case when it has at least one edit; a savefault case when at least one Save failed; an entry case when it has at least one item; an interleave case when two manifests with at least one item between them are alive at a write; distinct = distinct canonical case JSON.",
 		Assumptions: []string{
 			"yaml.v3 round-trips the generated manifest bodies (strings are pre-filtered by an independent Marshal/Unmarshal round trip; no timestamps, no NaN)",
 			"embedded YAML documents hold int/string/bool/null scalars, embedded JSON documents string/bool/float64/null scalars (the codecs' number normalisation is C01's concern); keys are path-safe",
@@ -305,6 +305,7 @@ func c17Run(c *Ctx) {
 		c.Tick()
 		c.Do("savefault", c17GenFault(r))
 	}
+	c17EntryCases(c)
 	for _, y := range c17MalformedFixed {
 		c.Do("malformed", c17Malformed{Yaml: y})
 	}
@@ -321,7 +322,7 @@ func c17Run(c *Ctx) {
 func c17GenEmb(r *rand.Rand) c17Emb {
 	kind := pick(r, []string{"Secret", "ConfigMap"})
 	mode := pick(r, []string{"yaml", "json", "props"})
-	cs := c17Emb{Kind: kind, Extra: c17GenExtra(r, kind), Bin: c17GenBins(r, 3), Mode: mode, Via: "open", Edits: []domEdit{}}
+	cs := c17Emb{Kind: kind, Extra: c17GenExtra(r, kind), Bin: c17GenBins(r, 3), Mode: mode, Via: "open", Edits: []c17DocEdit{}}
 	g := stdGen()
 	g.MaxDepth, g.MaxWidth, g.ListMax = 3, 3, 3
 	g.PNull = 0.05
@@ -377,9 +378,16 @@ func c17GenEmb(r *rand.Rand) c17Emb {
 	}
 	var paths, lists []string
 	wirePaths(cur, "", &paths, &lists)
-	genRound := func(n int) []domEdit {
-		out := []domEdit{}
+	lastRoute := ""
+	genRound := func(n int) []c17DocEdit {
+		out := []c17DocEdit{}
 		for i := 0; i < n; i++ {
+			// nearly half of the edits go through a nested handle (c17_hist.go), never by the same route twice in a row
+			if r.Intn(9) < 4 {
+				out = append(out, c17GenNested(r, g, &lastRoute))
+				continue
+			}
+			lastRoute = "root"
 			p := pick(r, g.Keys)
 			if len(paths) > 0 && r.Intn(3) > 0 {
 				p = pick(r, paths)
@@ -393,7 +401,7 @@ func c17GenEmb(r *rand.Rand) c17Emb {
 				p = pick(r, c17PropKeys)
 			}
 			if r.Intn(3) == 0 {
-				out = append(out, domEdit{Op: "removeat", Path: p})
+				out = append(out, c17DocEdit{Op: "removeat", Path: p})
 			} else {
 				var v W
 				if r.Intn(3) == 0 {
@@ -401,7 +409,7 @@ func c17GenEmb(r *rand.Rand) c17Emb {
 				} else {
 					v = g.Scalar(r)
 				}
-				out = append(out, domEdit{Op: "addat", Path: p, V: v})
+				out = append(out, c17DocEdit{Op: "addat", Path: p, V: v})
 				paths = append(paths, p)
 			}
 		}
@@ -666,6 +674,8 @@ func c17Eval(c *Ctx, kind string, raw []byte) {
 		c17EvalInter(c, raw)
 	case "savefault":
 		c17EvalFault(c, raw)
+	case "entry":
+		c17EvalEntry(c, raw)
 	case "malformed":
 		c17EvalMalformed(c, raw)
 	case "b64":
@@ -1194,15 +1204,15 @@ func c17EvalEmbedded(c *Ctx, raw []byte) {
 	if cs.Kind != "Secret" && cs.Kind != "ConfigMap" {
 		return
 	}
-	rounds := [][]domEdit{cs.Edits}
+	rounds := [][]c17DocEdit{cs.Edits}
 	for _, es := range cs.More {
 		if es == nil {
-			es = []domEdit{}
+			es = []c17DocEdit{}
 		}
 		rounds = append(rounds, es)
 	}
 	if rounds[0] == nil {
-		rounds[0] = []domEdit{}
+		rounds[0] = []c17DocEdit{}
 	}
 	nEdits := 0
 	for _, es := range rounds {
@@ -1307,7 +1317,9 @@ func c17EvalEmbedded(c *Ctx, raw []byte) {
 	// ---- the history: every round edits and saves through the SAME handle d, then a fresh handle reopens the file
 	prev := before
 	implRounds := []map[string]any{}
+	modelRounds := [][]map[string]any{}
 	complete := true
+	var hist *c17Hist
 	for ri, edits := range rounds {
 		var editedW, doc2, file2 W
 		var after c17Items
@@ -1315,12 +1327,19 @@ func c17EvalEmbedded(c *Ctx, raw []byte) {
 		var equalsBack bool
 		var saveErr, reopenErr, reloadErr error
 		out, txt = guard(func() {
-			for _, e := range edits {
-				c.Dist("docedit:" + e.Op)
-				applyDomEdit(d.Document(), e)
+			if hist == nil {
+				// the history holds a handle to every nested container / list from the start (c17_hist.go)
+				hist = c17NewHist(d.Document())
 			}
-			editedW = nodeWire(d.Document())
-			editedFlat = c17Stringified(d.Document())
+			for ei, e := range edits {
+				c.Dist("docedit:" + e.Op)
+				hist.step(c, e, map[string]any{"round": ri + 1, "edit": ei + 1})
+			}
+			modelRounds = append(modelRounds, hist.takeModel())
+			// what is about to be saved: the document as walked; its flattening is computed from the walk, and the
+			// document's own Flatten / AsMap / Serialize ... must agree with it (observe)
+			editedW = hist.observe(c, map[string]any{"round": ri + 1, "before": "Save"}).W
+			editedFlat = c17RefStringified(editedW)
 			if cs.Mode != "props" {
 				table = append(table, map[string]any{"doc": editedW, "text": c17Serialize(d.Document(), cs.Mode)})
 			}
@@ -1328,6 +1347,9 @@ func c17EvalEmbedded(c *Ctx, raw []byte) {
 			if saveErr != nil {
 				return
 			}
+			savedW := hist.observe(c, map[string]any{"round": ri + 1, "after": "Save"}).W
+			c.Direct("Save-leaves-the-document-as-edited", canon(savedW) == canon(editedW), map[string]any{"round": ri + 1, "before": editedW, "after": savedW})
+			hist.hold()
 			d2, e2 := c17Open(cs.Mode, file, cs.Item)
 			reopenErr = e2
 			if e2 != nil {
@@ -1400,7 +1422,7 @@ func c17EvalEmbedded(c *Ctx, raw []byte) {
 		return
 	}
 	// ---- model
-	mo := c.Model("embedded", map[string]any{"file": file0, "mode": cs.Mode, "item": cs.Item, "table": table, "rounds": rounds})
+	mo := c.Model("embedded", map[string]any{"file": file0, "mode": cs.Mode, "item": cs.Item, "table": table, "rounds": modelRounds})
 	mm, _ := mo.(map[string]any)
 	if mm == nil {
 		c.Corr("embedded", "object", mo)
